@@ -32,6 +32,8 @@ type bcase struct {
 	Depth int     `json:"depth,omitempty"`
 	DevAt int     `json:"deviation_level,omitempty"`
 	DevFD int32   `json:"deviation_field,omitempty"`
+	// merge-into-artefact cases: the state the target is in
+	Artefact string `json:"artefact,omitempty"`
 }
 
 var addrRe = regexp.MustCompile(`0x[0-9a-f]+|\[[0-9:-]+\]|\d+`)
@@ -236,6 +238,8 @@ func main() {
 		}
 		if c.Space == "depth" {
 			checkDepthDev(h, md, c.Path, c.Depth, c.DevAt-1, c.DevFD)
+		} else if c.Space == "merge-into-artefact" {
+			runMergeIntoArtefacts(h, []protoreflect.MessageDescriptor{md})
 		} else if c.Space == "nested-alloc" {
 			checkNestedAlloc(h, md, c.Path, c.Depth, c.DevAt)
 		} else {
@@ -256,6 +260,7 @@ func main() {
 	runEdits(h, types)
 	runDepth(h, types)
 	runNestedAlloc(h, types)
+	runMergeIntoArtefacts(h, types)
 	h.AddExtra("inputs_accepted", accepted.Load())
 	h.AddExtra("inputs_rejected", rejected.Load())
 	if accepted.Load() < 1000 || rejected.Load() < 1000 {
@@ -766,6 +771,68 @@ func runNestedAlloc(h *hz.H, types []protoreflect.MessageDescriptor) {
 	}
 	h.Rep.Bounds["nested_allocation_cases"] = n
 	h.AddExtra("nested_allocation_max_bytes_allocated_per_input_byte", fmt.Sprintf("%.2f", maxNestedRatio))
+}
+
+// runMergeIntoArtefacts: every C03 record of a type decoded with Merge into targets holding the states plain Go code can
+// build (nil list element, nil map value, oneof wrapper holding nil, nil pointer of a oneof wrapper type), in an otherwise
+// empty and in a populated message: no panic, and the result can be sized and marshalled.
+func runMergeIntoArtefacts(h *hz.H, types []protoreflect.MessageDescriptor) {
+	n := 0
+	for _, md := range types {
+		type art struct {
+			name  string
+			apply func(p proto.Message) bool
+		}
+		var arts []art
+		fs := md.Fields()
+		for i := 0; i < fs.Len(); i++ {
+			fd := fs.Get(i)
+			switch {
+			case fd.IsList() && fd.Kind() == protoreflect.MessageKind, fd.IsMap() && fd.MapValue().Kind() == protoreflect.MessageKind:
+				arts = append(arts, art{fmt.Sprintf("nil-element:%d", fd.Number()), func(p proto.Message) bool { return enum.InjectNil(p, int(fd.Number())) }})
+			case fd.ContainingOneof() != nil && !fd.ContainingOneof().IsSynthetic() && fd.Kind() == protoreflect.MessageKind:
+				arts = append(arts, art{fmt.Sprintf("oneof-wrapper-holding-nil:%d", fd.Number()), func(p proto.Message) bool { return enum.InjectNilOneof(p, fd) }},
+					art{fmt.Sprintf("oneof-typed-nil-wrapper:%d", fd.Number()), func(p proto.Message) bool { return enum.InjectTypedNilOneof(p, fd) }})
+			}
+		}
+		if len(arts) == 0 {
+			continue
+		}
+		recs := enum.RecordAlphabet(md, false)
+		for _, a := range arts {
+			for _, r := range recs {
+				if lite && n > 20000 {
+					break
+				}
+				g := enum.NewGo(md)
+				ok := false
+				if p := hz.Catch(func() { ok = a.apply(g) }); p != nil || !ok {
+					continue
+				}
+				n++
+				h.Eval(true, hz.Hash("C06merge", string(md.FullName()), a.name, r.Label))
+				var err error
+				step := "Unmarshal"
+				if p := hz.Catch(func() {
+					// a nil pointer of a wrapper type: only the decode itself is judged (AllowPartial: no initialisation walk
+					// afterwards) - the generated Range dereferences such a wrapper, which is recorded as an observation
+					// outside the listed states (DESIGN section 4), and every follow-up goes through Range or its like
+					typedNil := strings.HasPrefix(a.name, "oneof-typed-nil")
+					err = proto.UnmarshalOptions{Merge: true, AllowPartial: typedNil}.Unmarshal(r.Bytes, g)
+					if err == nil && !typedNil {
+						step = "Size"
+						proto.Size(g)
+						step = "Marshal"
+						proto.Marshal(g)
+					}
+				}); p != nil {
+					_ = step
+					h.ViolateMin(fmt.Sprintf("C06/merge-into-artefact-panic/%s/%s", md.FullName(), strings.SplitN(a.name, ":", 2)[0]), fmt.Sprintf("Unmarshal{Merge} of record %s (%x) into a %s holding %s panicked (step %s; the accepted result must be sizable and marshallable): %v", r.Label, clipb(r.Bytes), md.FullName(), a.name, step, p), bcase{Type: string(md.FullName()), Space: "merge-into-artefact", Bytes: hex.EncodeToString(r.Bytes), Artefact: a.name}, len(r.Bytes))
+				}
+			}
+		}
+	}
+	h.Rep.Bounds["merge_into_artefact_decodes"] = n
 }
 
 func deepRangeN(m protoreflect.Message) { deepRange(m, -100000) }
